@@ -41,7 +41,8 @@ class Sequence:
     async def cancel(self) -> None:
         if self._loop_task:
             self._loop_task.cancel()
-            await self._loop_task
+            # A task that has not run yet (just started or re-armed) ends up cancelled: awaiting it directly would re-raise
+            await asyncio.wait([self._loop_task])
 
     async def _loop(self) -> None:
         for i, value in enumerate(self._values):
